@@ -702,6 +702,15 @@ def _rt_chunk(items):
                 except PyRaise as pe:
                     out.append(("raises", "dumps:" + pe.name))  # parsed, but the untouched result does not re-serialise
                     continue
+                # the other serialiser: dump(file) writes the same bytes
+                sink = io.BytesIO()
+                try:
+                    P.sa_attr("dump")(sink)
+                    if sink.getvalue() != got:
+                        got = sink.getvalue() if got == data else got  # report the one that deviates from the input
+                except PyRaise as pe:
+                    out.append(("raises", "dump:" + pe.name))
+                    continue
                 again = oe.ref(pk).sa_attr("load")(data).sa_attr("dumps")()  # from a byte string
                 # a seekable stream that is not a BytesIO (what an opened file is): same bytes out, stream left at the end
                 fstream = io.BufferedReader(io.BytesIO(data + b"\nTRAILING"))  # what follows may start with any byte: here a newline
@@ -722,6 +731,14 @@ def _rt_chunk(items):
                 rest = stream.read()
                 g1b = P1.sa_attr("dumps")()
                 out.append(("ok", g1 if g1 == g1b else g1b, e1, P2.sa_attr("dumps")(), e2, rest))
+            elif kind == "stack-tail":
+                # complete pickles followed by bytes that are not one: a stack parse that returns normally has consumed exactly
+                # the pickles it returns (raising is the other legitimate outcome)
+                whole = b"".join(parts)
+                stream = io.BytesIO(whole)
+                S = oe.ref(sp).sa_attr("load")(stream)
+                elems = [e.sa_attr("dumps")() for e in list(S.sa_attr("pickled"))]
+                out.append(("ok", elems, stream.tell(), elems))
             elif kind == "pipe-stack":
                 whole = b"".join(parts)
                 stream = io.BufferedReader(_Pipe(whole))  # not seekable: a pipe, a socket
@@ -813,8 +830,9 @@ def check_round_trip(repo: Repo, rep: Report, tier: str):
             if o[0] == "raises":
                 if o[1] == "NotImplementedError":
                     n_refused += 1  # an opcode fickling does not implement: refused as a whole (C03.refuse), nothing re-serialised
-                elif o[1].startswith("dumps:"):
-                    note(f"untouched-parse-does-not-serialise:{o[1][6:]}", f"Pickled.load accepts {label} ({data[:24]!r}...) but dumps() of the untouched result raises {o[1][6:]}")
+                elif o[1].startswith(("dumps:", "dump:")):
+                    which, exc = o[1].split(":", 1)
+                    note(f"untouched-parse-does-not-serialise:{exc}", f"Pickled.load accepts {label} ({data[:24]!r}...) but {which}() of the untouched result raises {exc}")
                 else:
                     note(f"valid-pickle-refused:{o[1]}", f"Pickled.load raises {o[1]} on {label} ({data[:24]!r}...), a stream CPython's own reader accepts and every opcode of which fickling implements")
                 continue
@@ -861,6 +879,8 @@ def check_round_trip(repo: Repo, rep: Report, tier: str):
     if huge and huge[0] not in sel:
         sel = sel + huge
     pitems = [("position", f"{sk}: HEADER + {a[0]} + {b[0]} + TRAILING", [sk, a[1], b[1]]) for sk in STREAM_KINDS for a, b in zip(sel, sel[1:] + sel[:1])]
+    tails = [("a call of os.system cut off before STOP", b"cos\nsystem\n(S'id'\ntR"), ("a complete-looking pickle that ends in an unassigned opcode byte", b"cos\nsystem\n(S'id'\ntR\xff."), ("text that is not a pickle", b"GARBAGE\x00\x01")]
+    pitems += [("stack-tail", f"{a[0]} + {tl}", [a[1], tb]) for a in sel[:3] for tl, tb in tails]
     pitems += [("pipe-stack", "a non-seekable stream: " + " + ".join(l for l, _ in st)[:140], [d for _, d in st]) for st in stacks[:: max(1, len(stacks) // 6)]]
     pchunks = [pitems[i::jobs] for i in range(jobs)]
     pparts = dec(cached("c06rt-positions-" + ckey, lambda: enc(run_chunks(pchunks))))
@@ -868,10 +888,21 @@ def check_round_trip(repo: Repo, rep: Report, tier: str):
     for chunk, outs in zip(pchunks, pparts):
         for (kind, label, ps), o in zip(chunk, outs):
             sk = ps[0].split(" ")[0] if kind == "position" else "non-seekable"
+            if kind == "stack-tail" and o[0] == "raises":
+                n_pos += 1  # refusing the file is the other legitimate outcome
+                continue
             if o[0] == "unsupported":
                 raise AnalysisError(f"C06.round-trip: cannot interpret two consecutive loads over {label}: {o[1]}")
             if o[0] == "raises":
                 note(f"positioned-stream-refused:{sk}:{o[1]}" if kind == "position" else f"stack-refused:non-seekable:{o[1]}", f"{'Pickled.load' if kind == 'position' else 'StackedPickle.load'} raises {o[1]} on {label}")
+                continue
+            if kind == "stack-tail":
+                elems, end = o[1], o[2]
+                good = ps[:-1]
+                if elems != good[: len(elems)] or end != sum(len(x) for x in elems):
+                    note("stack-consumes-beyond-its-elements", f"StackedPickle.load over {label} returns {len(elems)} element(s) totalling {sum(len(x) for x in elems)} bytes but leaves the stream at offset {end}: what follows the pickles it returned was consumed and dropped (a reader of the same file goes on to execute it)")
+                else:
+                    n_pos += 1
                 continue
             if kind == "pipe-stack":
                 if o[1] != ps:
